@@ -287,3 +287,90 @@ pub fn with_host(e: EP, w: u8, rng: &mut Rng) -> EP {
     };
     EP::new(e.net() | host, e.len)
 }
+
+/// A random universe for a wide type: `target` prefixes with random lengths and addresses drawn
+/// around a few cluster addresses, closed (loosely) under the relations the generators care
+/// about (parent, child, sibling, longest common prefix), so that mid-range lengths, arbitrary bit
+/// positions and octet/word boundaries occur, which the fixed sparse universe never has.
+pub fn universe_random(w: u8, rng: &mut Rng, target: usize) -> Vec<EP> {
+    let wm = mask(w);
+    let mut set: std::collections::BTreeSet<(u128, u8)> = std::collections::BTreeSet::new();
+    let add = |set: &mut std::collections::BTreeSet<(u128, u8)>, bits: u128, len: u8| {
+        let e = EP::new(bits & wm, len.min(w)).canon();
+        set.insert(e.key());
+    };
+    add(&mut set, 0, 0);
+    add(&mut set, 0, 1);
+    add(&mut set, 1u128 << 127, 1);
+    add(&mut set, wm, w);
+    add(&mut set, 0, w);
+    let nclusters = 2 + rng.below(6);
+    let clusters: Vec<u128> = (0..nclusters)
+        .map(|i| match i {
+            0 => wm,                              // all ones
+            1 => mask(w - w / 4) & !mask(w / 4),     // bits set only in the middle of the address
+            _ => rng.u128() & wm,
+        })
+        .collect();
+    let boundary: Vec<u8> = [7u8, 8, 9, 15, 16, 17, 23, 24, 25, 31, 32, 33, 47, 48, 63, 64, 65, 95, 96, 97, 127, 128].iter().copied().filter(|l| *l <= w).collect();
+    let mut guard = 0;
+    while set.len() < target && guard < target * 40 {
+        guard += 1;
+        let c = clusters[rng.below(clusters.len())];
+        // differ from the cluster address only below a random bit position
+        let keep = rng.below(w as usize + 1) as u32;
+        let low = if keep >= 128 { 0 } else { u128::MAX >> keep };
+        let leaf = (c ^ (rng.u128() & low)) & wm;
+        let nl = 1 + rng.below(4);
+        for _ in 0..nl {
+            let len = if rng.chance(1, 3) && !boundary.is_empty() { boundary[rng.below(boundary.len())] } else { rng.below(w as usize + 1) as u8 };
+            add(&mut set, leaf, len);
+            if len > 0 && rng.chance(1, 2) {
+                add(&mut set, leaf ^ (1u128 << (128 - len as u32)), len);
+            }
+            if len > 0 && rng.chance(1, 3) {
+                add(&mut set, leaf, len - 1);
+            }
+            if len < w && rng.chance(1, 4) {
+                add(&mut set, leaf, len + 1);
+            }
+        }
+        if set.len() >= 2 && rng.chance(1, 3) {
+            let v: Vec<(u128, u8)> = {
+                let n = set.len();
+                let i = rng.below(n);
+                let j = rng.below(n);
+                vec![*set.iter().nth(i).unwrap(), *set.iter().nth(j).unwrap()]
+            };
+            let l = lcp(v[0], v[1]);
+            set.insert(l);
+        }
+    }
+    // close under longest common prefix: every branching node a trie over these keys can have is a
+    // member (views can store values there, and the state sweep must see every stored key)
+    loop {
+        let v: Vec<(u128, u8)> = set.iter().copied().collect();
+        let before = set.len();
+        for w2 in v.windows(2) {
+            set.insert(lcp(w2[0], w2[1]));
+        }
+        if set.len() == before {
+            break;
+        }
+    }
+    set.into_iter().map(|(b, l)| EP::new(b, l)).collect()
+}
+
+/// every pairwise longest common prefix of members is a member (test helper for universes)
+pub fn lcp_closed(u: &[EP]) -> bool {
+    let keys: std::collections::BTreeSet<(u128, u8)> = u.iter().map(|e| e.key()).collect();
+    let v: Vec<(u128, u8)> = keys.iter().copied().collect();
+    for i in 0..v.len() {
+        for j in (i + 1)..v.len() {
+            if !keys.contains(&lcp(v[i], v[j])) {
+                return false;
+            }
+        }
+    }
+    true
+}
